@@ -23,6 +23,8 @@ def analyse(prop, project, tier='quick'):
             raise AnalysisError("no check is built for property %s" % prop)
         ctx = Ctx(project, run)
         props.PROPERTIES[prop](ctx)
+        if run.errors:
+            err = ' | '.join(run.errors)
     except AnalysisError as e:
         err = str(e)
     except RecursionError as e:
